@@ -208,9 +208,15 @@ func explainSelectQueryWithInheritedWith(sb *strings.Builder, stmt ast.Statement
 // This is used for WITH ... INSERT ... SELECT where the WITH clause belongs to the INSERT
 // but needs to be output at the end of each SelectQuery in the tree
 func ExplainSelectWithInheritedWith(sb *strings.Builder, stmt ast.Statement, inheritedWith []ast.Expression, depth int) {
+	explainSelectWithInheritedWithTail(sb, stmt, inheritedWith, depth, unionTail{})
+}
+
+// explainSelectWithInheritedWithTail is ExplainSelectWithInheritedWith for a statement some of
+// whose trailing clauses are output by the enclosing node
+func explainSelectWithInheritedWithTail(sb *strings.Builder, stmt ast.Statement, inheritedWith []ast.Expression, depth int, tail unionTail) {
 	switch s := stmt.(type) {
 	case *ast.SelectWithUnionQuery:
-		explainSelectWithUnionQueryWithInheritedWith(sb, s, inheritedWith, depth)
+		explainSelectWithUnionQueryWithInheritedWith(sb, s, inheritedWith, depth, tail)
 	case *ast.SelectIntersectExceptQuery:
 		explainSelectIntersectExceptQueryWithInheritedWith(sb, s, inheritedWith, depth)
 	case *ast.SelectQuery:
@@ -221,12 +227,12 @@ func ExplainSelectWithInheritedWith(sb *strings.Builder, stmt ast.Statement, inh
 }
 
 // explainSelectWithUnionQueryWithInheritedWith explains a SelectWithUnionQuery with inherited WITH
-func explainSelectWithUnionQueryWithInheritedWith(sb *strings.Builder, n *ast.SelectWithUnionQuery, inheritedWith []ast.Expression, depth int) {
+func explainSelectWithUnionQueryWithInheritedWith(sb *strings.Builder, n *ast.SelectWithUnionQuery, inheritedWith []ast.Expression, depth int, tail unionTail) {
 	if n == nil {
 		return
 	}
 	indent := strings.Repeat(" ", depth)
-	children := countSelectUnionChildren(n)
+	children := countSelectUnionChildrenTail(n, tail)
 	fmt.Fprintf(sb, "%sSelectWithUnionQuery (children %d)\n", indent, children)
 
 	selects := simplifyUnionSelects(n.Selects)
@@ -249,28 +255,8 @@ func explainSelectWithUnionQueryWithInheritedWith(sb *strings.Builder, n *ast.Se
 			break
 		}
 	}
-	// SETTINGS before FORMAT
-	if n.SettingsBeforeFormat && len(n.Settings) > 0 {
-		fmt.Fprintf(sb, "%s Set\n", indent)
-	}
-	// FORMAT clause - check individual SelectQuery nodes
-	for _, sel := range n.Selects {
-		if sq, ok := sel.(*ast.SelectQuery); ok && sq.Format != nil {
-			Node(sb, sq.Format, depth+1)
-			break
-		}
-	}
-	// SETTINGS after FORMAT
-	if n.SettingsAfterFormat && len(n.Settings) > 0 {
-		fmt.Fprintf(sb, "%s Set\n", indent)
-	} else {
-		for _, sel := range n.Selects {
-			if sq, ok := sel.(*ast.SelectQuery); ok && sq.SettingsAfterFormat && len(sq.Settings) > 0 {
-				fmt.Fprintf(sb, "%s Set\n", indent)
-				break
-			}
-		}
-	}
+	// SETTINGS and FORMAT
+	explainUnionTail(sb, n, indent, depth, tail)
 }
 
 // explainSelectIntersectExceptQueryWithInheritedWith explains a SelectIntersectExceptQuery with inherited WITH
@@ -304,27 +290,57 @@ func explainSelectIntersectExceptQueryWithInheritedWith(sb *strings.Builder, n *
 	}
 }
 
+// unionTail says which trailing clauses of a SelectWithUnionQuery are output by the
+// enclosing node (CREATE ... AS SELECT, INSERT ... SELECT, EXPLAIN) instead of at this level
+type unionTail struct {
+	noFormat     bool             // FORMAT belongs to the enclosing node
+	noFormatOf   *ast.SelectQuery // this select's FORMAT belongs to the enclosing node
+	noSettings   bool             // the union-level SETTINGS belong to the enclosing node
+	noSettingsOf *ast.SelectQuery // this select's SETTINGS belong to the enclosing node
+}
+
+func (t unionTail) format(sq *ast.SelectQuery) *ast.Identifier {
+	if t.noFormat || sq == t.noFormatOf {
+		return nil
+	}
+	return sq.Format
+}
+
+func (t unionTail) unionSettings(n *ast.SelectWithUnionQuery) int {
+	if t.noSettings {
+		return 0
+	}
+	return len(n.Settings)
+}
+
+func (t unionTail) selectSettings(sq *ast.SelectQuery) int {
+	if sq == t.noSettingsOf {
+		return 0
+	}
+	return len(sq.Settings)
+}
+
 func explainSelectWithUnionQuery(sb *strings.Builder, n *ast.SelectWithUnionQuery, indent string, depth int) {
-	explainSelectWithUnionQueryFormat(sb, n, indent, depth, true)
+	explainSelectWithUnionQueryTail(sb, n, indent, depth, unionTail{})
 }
 
 // explainAsSelectWithoutFormat explains the AS SELECT of a CreateQuery whose FORMAT
 // is output at CreateQuery level instead of SelectWithUnionQuery level
 func explainAsSelectWithoutFormat(sb *strings.Builder, stmt ast.Statement, depth int) {
 	if swu, ok := stmt.(*ast.SelectWithUnionQuery); ok {
-		explainSelectWithUnionQueryFormat(sb, swu, strings.Repeat(" ", depth), depth, false)
+		explainSelectWithUnionQueryTail(sb, swu, strings.Repeat(" ", depth), depth, unionTail{noFormat: true})
 		return
 	}
 	Node(sb, stmt, depth)
 }
 
-// explainSelectWithUnionQueryFormat explains a SelectWithUnionQuery; withFormat tells
-// whether the FORMAT clause is output at this level
-func explainSelectWithUnionQueryFormat(sb *strings.Builder, n *ast.SelectWithUnionQuery, indent string, depth int, withFormat bool) {
+// explainSelectWithUnionQueryTail explains a SelectWithUnionQuery; tail tells which
+// trailing clauses are left to the enclosing node
+func explainSelectWithUnionQueryTail(sb *strings.Builder, n *ast.SelectWithUnionQuery, indent string, depth int, tail unionTail) {
 	if n == nil {
 		return
 	}
-	children := countSelectUnionChildrenFormat(n, withFormat)
+	children := countSelectUnionChildrenTail(n, tail)
 	fmt.Fprintf(sb, "%sSelectWithUnionQuery (children %d)\n", indent, children)
 	// ClickHouse optimizes UNION ALL when selects have identical expressions but different aliases.
 	// In that case, only the first SELECT is shown since column names come from the first SELECT anyway.
@@ -362,27 +378,30 @@ func explainSelectWithUnionQueryFormat(sb *strings.Builder, n *ast.SelectWithUni
 			break
 		}
 	}
+	explainUnionTail(sb, n, indent, depth, tail)
+}
+
+// explainUnionTail outputs the SETTINGS and FORMAT children of a SelectWithUnionQuery
+func explainUnionTail(sb *strings.Builder, n *ast.SelectWithUnionQuery, indent string, depth int, tail unionTail) {
 	// When SETTINGS comes BEFORE FORMAT, output Set first
-	if n.SettingsBeforeFormat && len(n.Settings) > 0 {
+	if n.SettingsBeforeFormat && tail.unionSettings(n) > 0 {
 		fmt.Fprintf(sb, "%s Set\n", indent)
 	}
 	// FORMAT clause - check if any SelectQuery has Format set
-	// Skip this when inside CreateQuery context, as Format is output at CreateQuery level
-	if withFormat {
-		for _, sel := range n.Selects {
-			if sq, ok := sel.(*ast.SelectQuery); ok && sq.Format != nil {
-				Node(sb, sq.Format, depth+1)
-				break
-			}
+	// (not when the enclosing node outputs it, e.g. Format is output at CreateQuery level)
+	for _, sel := range n.Selects {
+		if sq, ok := sel.(*ast.SelectQuery); ok && tail.format(sq) != nil {
+			Node(sb, tail.format(sq), depth+1)
+			break
 		}
 	}
 	// When SETTINGS comes AFTER FORMAT, output Set last (check SelectWithUnionQuery first, then SelectQuery)
-	if n.SettingsAfterFormat && len(n.Settings) > 0 {
+	if n.SettingsAfterFormat && tail.unionSettings(n) > 0 {
 		fmt.Fprintf(sb, "%s Set\n", indent)
 	} else {
 		// Legacy check for settings on SelectQuery
 		for _, sel := range n.Selects {
-			if sq, ok := sel.(*ast.SelectQuery); ok && sq.SettingsAfterFormat && len(sq.Settings) > 0 {
+			if sq, ok := sel.(*ast.SelectQuery); ok && sq.SettingsAfterFormat && tail.selectSettings(sq) > 0 {
 				fmt.Fprintf(sb, "%s Set\n", indent)
 				break
 			}
@@ -636,10 +655,10 @@ func hasOnlyLiterals(exprs []ast.Expression) bool {
 }
 
 func countSelectUnionChildren(n *ast.SelectWithUnionQuery) int {
-	return countSelectUnionChildrenFormat(n, true)
+	return countSelectUnionChildrenTail(n, unionTail{})
 }
 
-func countSelectUnionChildrenFormat(n *ast.SelectWithUnionQuery, withFormat bool) int {
+func countSelectUnionChildrenTail(n *ast.SelectWithUnionQuery, tail unionTail) int {
 	count := 1 // ExpressionList of selects
 	// Check if any SelectQuery has IntoOutfile set
 	for _, sel := range n.Selects {
@@ -649,26 +668,24 @@ func countSelectUnionChildrenFormat(n *ast.SelectWithUnionQuery, withFormat bool
 		}
 	}
 	// Check if any SelectQuery has Format set
-	// Skip this when inside CreateQuery context, as Format is output at CreateQuery level
-	if withFormat {
-		for _, sel := range n.Selects {
-			if sq, ok := sel.(*ast.SelectQuery); ok && sq.Format != nil {
-				count++
-				break
-			}
+	// (not when the enclosing node outputs it, e.g. Format is output at CreateQuery level)
+	for _, sel := range n.Selects {
+		if sq, ok := sel.(*ast.SelectQuery); ok && tail.format(sq) != nil {
+			count++
+			break
 		}
 	}
 	// Count union-level SETTINGS before FORMAT
-	if n.SettingsBeforeFormat && len(n.Settings) > 0 {
+	if n.SettingsBeforeFormat && tail.unionSettings(n) > 0 {
 		count++
 	}
 	// Count SETTINGS after FORMAT (union level first, then SelectQuery level)
-	if n.SettingsAfterFormat && len(n.Settings) > 0 {
+	if n.SettingsAfterFormat && tail.unionSettings(n) > 0 {
 		count++
 	} else {
 		// Legacy check for settings on SelectQuery
 		for _, sel := range n.Selects {
-			if sq, ok := sel.(*ast.SelectQuery); ok && sq.SettingsAfterFormat && len(sq.Settings) > 0 {
+			if sq, ok := sel.(*ast.SelectQuery); ok && sq.SettingsAfterFormat && tail.selectSettings(sq) > 0 {
 				count++
 				break
 			}
